@@ -9,7 +9,9 @@ CAP_MENU = ["junk\n", "  @bad tag\n"]
 
 def std_sources(tier, n_quick, n_thorough, dialects=None):
     n = n_quick if tier == "quick" else n_thorough
-    return E.src_corpus() + E.src_limits() + E.src_generated(n, SEED, dialects) + E.src_noisy(n, SEED)
+    from props import ALL_PURPOSE_DIALECTS
+    return (E.src_corpus() + E.src_limits() + E.src_generated(n, SEED, dialects) + E.src_noisy(n, SEED)
+            + (E.src_generated(max(20, n // 6), SEED + 11, ALL_PURPOSE_DIALECTS) if dialects is None else []))
 
 
 def _error_transitions(rep):
